@@ -197,8 +197,8 @@ def species_meta(ctx, rank):
         return (rd.atomic_number, F(repr(rd.atomic_mass)), F(0), "fcc"), lines
     if ctx.meta == "override":
         rd = reference_data[lab]
-        mass = F(100 + rank) + F(1, 4)
-        lc = F(3) + F(rank, 8)
+        mass = F(100 + rank) + F(1234567, 10 ** 7)          # seven decimals: nothing of them may be lost
+        lc = F(3) + F(rank, 8) + F(1, 10 ** 7)
         lt = ["bcc", "HCP", "Fcc", "sc"][rank - 1]      # the lattice type is carried over as written
         lines = ["%s.atomic_mass : %s" % (lab, dec(mass)), "%s.lattice_constant : %s" % (lab, dec(lc)),
                  "%s.lattice_type : %s" % (lab, lt)]
@@ -436,7 +436,10 @@ def make_writer(ctx, route, counter):
         dr, drho = cutoff / float(nr - 1), crho / float(nrho - 1)
         # any number of comment strings: the file still has exactly three comment lines
         comments = [[], ["c1"], ["c1", "c2", "c3"], ["c1", "c2", "c3", "c4", "c5"]][ctx.idx % 4]
-        f = {"setfl": lambda sink: P.writeSetFL(nrho, drho, nr, dr, eams, pots, sink, comments),
+        # the header's fifth number may be given by the caller (here: three quarters of the tabulated range); the arrays still hold
+        # all Nr values
+        kw = dict(cutoff=0.75 * (nr - 1) * dr) if ctx.idx % 3 == 1 else {}
+        f = {"setfl": lambda sink: P.writeSetFL(nrho, drho, nr, dr, eams, pots, sink, comments, **kw),
              "setfl_fs": lambda sink: P.writeSetFLFinnisSinclair(nrho, drho, nr, dr, eams, pots, sink, comments),
              "DL_POLY_EAM": lambda sink: P.writeTABEAM(nrho, drho, nr, dr, eams, pots, sink, "title"),
              "DL_POLY_EAM_fs": lambda sink: P.writeTABEAMFinnisSinclair(nrho, drho, nr, dr, eams, pots, sink, "title"),
@@ -683,6 +686,15 @@ def cmp_gulp(c, plan, text):
             continue
         b = cands[0]
         c.num("gulp-cutoff", b["cutoff"], ctx.cutoff, what="cutoff of %s %s" % (la, lb))
+        if b["rows"]:
+            # the header's cutoff and the last row are the same separation: they agree to the FINER of their two printed precisions
+            from engines.examples_trace import quantum
+            try:
+                hc, lr = float(b["cutoff"]), float(b["rows"][-1][1])
+                if abs(hc - lr) > 1.02 * min(quantum(b["cutoff"]), quantum(b["rows"][-1][1])) + 1e-12 * abs(lr):
+                    c.fail("gulp-cutoff", "block %s %s: header cutoff %s, last row at r=%s" % (la, lb, b["cutoff"], b["rows"][-1][1]))
+            except ValueError:
+                pass
         if len(b["rows"]) != rows["n"]:
             c.fail("row-count", "GULP block %s %s has %d rows, specification says nr=%d" % (la, lb, len(b["rows"]), rows["n"]))
             continue
@@ -731,6 +743,16 @@ def cmp_setfl(c, plan, text, kind, cases_index):
         return
     c.num("grid-line", f["drho"], ctx.drho(), what="drho")
     c.num("grid-line", f["dr"], ctx.dr(), what="dr")
+    if kind == "fs" and c.route in ("class", "ini", "cli"):
+        # C04's second formulation (densities of a cluster by the consumer's rules): the consumer counts neighbours up to the header's
+        # cutoff, so it must span the tabulated separations (the writers use nr*dr unless the caller passes a value)
+        try:
+            hc = float(f["cutoff"])
+            if not (float(ctx.dr()) * (ctx.m["nr"] - 1) * (1 - 1e-6) <= hc <= float(ctx.dr()) * ctx.m["nr"] * (1 + 1e-6)):
+                c.fail("header-cutoff", "header cutoff %s does not span the tabulated separations (last row at %s, nr*dr = %s)" % (
+                    f["cutoff"], float(ctx.dr()) * (ctx.m["nr"] - 1), float(ctx.dr()) * ctx.m["nr"]))
+        except (KeyError, ValueError):
+            c.fail("header-cutoff", "header cutoff unreadable")
     body = plan[5:]
     n = len(f["names"])
     per = 2 + (n if kind == "fs" else 1)
